@@ -152,7 +152,9 @@ def sample_series(failing):
                              ("chmod", "a.txt", 0o755)])
     if failing:
         s.add_patch("p3.patch", [("modify", "a.txt", "".join("line %d%s\n" % (i, " again" if i == 6 else (" changed" if i in (3, 10) else "")) for i in range(1, 13))),
-                                 ("modify", "d/b.txt", "one\ntwo and a half\nthree\nFOUR\n")], fail_file="d/b.txt")
+                                 ("chmod", "r2.txt", 0o600),
+                                 ("modify", "n/new.txt", "fresh\nfile\nmore\n"),
+                                 ("modify", "d/b.txt", "one\ntwo and a half\nthree\nFOUR\n")], fail_file=failing if isinstance(failing, str) else "d/b.txt")
     else:
         s.add_patch("p3.patch", [("modify", "n/new.txt", "fresh\nfile\nmore\n")])
     if not failing:
@@ -164,6 +166,27 @@ def sample_series(failing):
     return s
 
 
+def many_rejects_series(nfiles=9):
+    s = Series()
+    base = {}
+    for i in range(nfiles):
+        base["m%d.txt" % i] = "alpha\nbeta\ngamma\n"
+    base["ok.txt"] = "one\n"
+    s.base(base)
+    s.add_patch("p1.patch", [("modify", "ok.txt", "one\ntwo\n")])
+    # every m*.txt fails (context corrupted), ok.txt applies
+    text = ""
+    cur = dict(s.versions[-1])
+    for i in range(nfiles):
+        d = udiff(cur["m%d.txt" % i][0], "alpha\nBETA\ngamma\n", "a/m%d.txt" % i, "b/m%d.txt" % i).replace("\n alpha", "\n ALPHA?", 1)
+        text += d
+    text += udiff(cur["ok.txt"][0], "one\ntwo\nthree\n", "a/ok.txt", "b/ok.txt")
+    s.patches.append(("p2.patch", text))
+    s.touched.append([("m%d.txt" % i, "modify") for i in range(nfiles)] + [("ok.txt", "modify")])
+    s.fail_at = 1
+    return s, ["m%d.txt.rej" % i for i in range(nfiles)]
+
+
 def fail(msg):
     print("violation: " + msg)
     return 1
@@ -171,7 +194,7 @@ def fail(msg):
 
 def scen_c05(binary):
     rc_all = 0
-    for failing in (False, True):
+    for failing in (False, True, "n/new.txt"):
         for threads in ("1", "2", "4"):
             for backup in ("never", "always", "onfail"):
                 s = sample_series(failing)
@@ -193,11 +216,24 @@ def scen_c05(binary):
                     if names != [n for n, _ in s.patches[:k]]:
                         rc_all |= fail("%s: applied-patches = %s" % (tag, names))
                     rejs = sorted(os.path.relpath(os.path.join(d, f), root) for d, _, fs in os.walk(root) for f in fs if f.endswith(".rej"))
-                    want_rej = ["d/b.txt.rej"] if failing else []
+                    # a reject for a file whose directory does not exist on disk is skipped (as quilt does)
+                    want_rej = [] if not failing else (["d/b.txt.rej"] if failing is True else [])
                     if rejs != want_rej:
                         rc_all |= fail("%s: reject files %s, expected %s" % (tag, rejs, want_rej))
                 finally:
                     shutil.rmtree(root, ignore_errors=True)
+    # many failing files in one patch: every one gets its reject, whatever the thread count
+    for threads in ("1", "2", "3", "4"):
+        s, want = many_rejects_series()
+        root = tempfile.mkdtemp()
+        try:
+            s.materialize(root)
+            rc, out = push(binary, root, ["-a", "--threads", threads, "--backup", "never"])
+            rejs = sorted(os.path.relpath(os.path.join(d, f), root) for d, _, fs in os.walk(root) for f in fs if f.endswith(".rej"))
+            if rc != 1 or rejs != sorted(want) or tree(root) != s.versions[1]:
+                rc_all |= fail("threads=%s many failing files: exit %d, rejects %s" % (threads, rc, rejs))
+        finally:
+            shutil.rmtree(root, ignore_errors=True)
     return rc_all
 
 
@@ -310,6 +346,7 @@ def scen_c15(binary):
             twin = root + ".twin"
             try:
                 s.materialize(root)
+                os.chmod(os.path.join(root, "d", "b.txt"), 0o444)
                 subprocess.run(["cp", "-al", root, twin], check=True)
                 before = dict((p, (open(os.path.join(twin, p)).read(), os.lstat(os.path.join(twin, p)).st_mode)) for p in s.versions[0])
                 push(binary, root, ["-a", "--threads", threads, "--backup", "always"])
@@ -350,6 +387,37 @@ def scen_c18(binary):
                 rc_all |= fail("threads=%s: a modified file could not be written but exit 0" % threads)
             if names:
                 rc_all |= fail("threads=%s: patches recorded as applied although a file could not be written: %s" % (threads, names))
+        finally:
+            shutil.rmtree(root, ignore_errors=True)
+        # a dangling symbolic link sits where a new file has to be created: creation fails with NotFound
+        s = sample_series(False)
+        root = tempfile.mkdtemp()
+        try:
+            s.materialize(root)
+            os.makedirs(os.path.join(root, "n"))
+            os.symlink("/nonexistent-dir/x", os.path.join(root, "n", "new.txt"))
+            rc, out = push(binary, root, ["-a", "--threads", threads])
+            ap = os.path.join(root, ".pc", "applied-patches")
+            names = open(ap).read().split() if os.path.isfile(ap) else []
+            if rc == 0 or names:
+                rc_all |= fail("threads=%s: a new file could not be created (dangling symlink) but exit %d, recorded %s" % (threads, rc, names))
+        finally:
+            shutil.rmtree(root, ignore_errors=True)
+        # a write fails (file size limit) in a run in which another patch is rejected
+        s = sample_series(True)
+        root = tempfile.mkdtemp()
+        try:
+            s.versions[0]["big.txt"] = ("".join("big line %06d\n" % i for i in range(8000)), 0o644)
+            s.materialize(root)
+            big = s.versions[0]["big.txt"][0]
+            open(os.path.join(root, "patches", "p0.patch"), "w").write(udiff(big, big.replace("big line 004000", "BIG LINE"), "a/big.txt", "b/big.txt"))
+            open(os.path.join(root, "series"), "w").write("p0.patch\n" + open(os.path.join(root, "series")).read())
+            p = subprocess.run(["bash", "-c", "trap '' XFSZ; ulimit -f 16; exec \"$0\" push -d \"$1\" -a --threads %s --backup never" % threads, binary, root],
+                               capture_output=True, text=True, timeout=120)
+            ap = os.path.join(root, ".pc", "applied-patches")
+            names = open(ap).read().split() if os.path.isfile(ap) else []
+            if p.returncode == 0 or "p0.patch" in names:
+                rc_all |= fail("threads=%s: big.txt could not be written (EFBIG) but exit %d, recorded %s" % (threads, p.returncode, names))
         finally:
             shutil.rmtree(root, ignore_errors=True)
     return rc_all
@@ -425,6 +493,20 @@ def scen_c17(binary):
                 rc_all |= fail("goal %s (already applied / unknown): exit %d, tree changed=%s" % (goal, rc, full_snapshot(root) != before))
     finally:
         shutil.rmtree(root, ignore_errors=True)
+    # a file deleted earlier in the run is "absent" for later patches of the same run
+    for threads in ("1", "2"):
+        root = tempfile.mkdtemp()
+        try:
+            os.makedirs(os.path.join(root, "patches"))
+            open(os.path.join(root, "x.txt"), "w").write("old\n")
+            open(os.path.join(root, "patches", "del.patch"), "w").write("--- a/x.txt\n+++ /dev/null\n@@ -1 +0,0 @@\n-old\n")
+            open(os.path.join(root, "patches", "new.patch"), "w").write("--- a/x.txt\n+++ b/y.txt\n@@ -0,0 +1 @@\n+fresh\n")
+            open(os.path.join(root, "series"), "w").write("del.patch\nnew.patch\n")
+            rc, out = push(binary, root, ["-a", "--threads", threads])
+            if rc != 0 or os.path.exists(os.path.join(root, "x.txt")) or not os.path.exists(os.path.join(root, "y.txt")):
+                rc_all |= fail("threads=%s: a file deleted earlier in the run was chosen as patch target again (exit %d)" % (threads, rc))
+        finally:
+            shutil.rmtree(root, ignore_errors=True)
     return rc_all
 
 
